@@ -15,6 +15,8 @@ import (
 	"sync"
 	"time"
 
+	"github.com/dolthub/fslock"
+
 	"github.com/dolthub/dolt/go/store/chunks"
 	"github.com/dolthub/dolt/go/store/constants"
 	"github.com/dolthub/dolt/go/store/hash"
@@ -255,6 +257,9 @@ func c41(c *rig.Ctx) {
 		if damage != "none" {
 			scenario = 0 // damaged directories are for the read-only clause
 		}
+		if s%5 == 4 {
+			scenario = 3
+		}
 		var outcomes []string
 		run := func(mode string, hold int, write bool, traced bool, ready string) *c41Report {
 			out := filepath.Join(work, fmt.Sprintf("rep-%d.json", r.Int63()))
@@ -349,6 +354,76 @@ func c41(c *rig.Ctx) {
 					c.Violation("c41/readonly-session-modified-files/"+damage, strings.Join(d, "; "), map[string]any{"writer_seed": seed, "damage": damage})
 				}
 			}
+		case 3:
+			// A directory in the state a writer leaves between creating its journal file and committing the first
+			// root record: a table-file store with a committed root (manifest + table files) plus a journal file that
+			// holds no (valid) root record. The LOCK is held by the monitor itself, so nothing else touches the
+			// directory; every opener must come up read-only (or be refused), read the committed closure from the
+			// table files, and leave every file untouched.
+			os.RemoveAll(db)
+			rig.Must(os.MkdirAll(db, 0o755))
+			lst, err := oracle.OpenLocal(db, 1<<12)
+			rig.Must(err)
+			lm := oracle.NewModel()
+			var lroot hash.Hash
+			for k := 0; k < 2+r.Intn(3); k++ {
+				last, err := putSome(r, lst, lm, 2+r.Intn(6), "c41rootless")
+				rig.Must(err)
+				cur, _ := lst.Root(bg)
+				if ok, err := lst.Commit(bg, last, cur); err != nil || !ok {
+					rig.Must(fmt.Errorf("setup commit: %v %v", ok, err))
+				}
+				lroot = last
+			}
+			lst.Close()
+			variant := []string{"empty-journal", "torn-first-record", "garbage-journal"}[r.Intn(3)]
+			var jbytes []byte
+			switch variant {
+			case "torn-first-record":
+				jbytes = []byte{0, 0, 0, 40, 1, 1, 2} // length prefix + a few bytes of a root record
+			case "garbage-journal":
+				jbytes = make([]byte, 64+r.Intn(200))
+				r.Read(jbytes)
+				jbytes[0], jbytes[1] = 0x7f, 0xff // implausible record length: parsed as garbage
+			}
+			rig.Must(os.WriteFile(jp, jbytes, 0o644))
+			damage = "rootless-journal/" + variant
+			damaged++
+			lk, lerr := fslock.New(filepath.Join(db, "LOCK"))
+			rig.Must(lerr)
+			if err := lk.TryLock(); err != nil {
+				rig.Must(fmt.Errorf("monitor cannot take LOCK: %w", err))
+			}
+			before := dirDigest(db)
+			for i, mode := range []string{"default", "skip", "failfast"} {
+				rep := run(mode, 0, true, i < 2, "")
+				if rep == nil {
+					continue
+				}
+				outcomes = append(outcomes, mode+"="+rep.Mode)
+				wit := map[string]any{"damage": damage, "open_mode": mode, "report": rep}
+				switch {
+				case mode == "failfast":
+					failfast++
+					if rep.Mode != "error" || !rep.Locked {
+						c.Violation("c41/failfast-not-refused", "a fail-fast open of a locked directory did not return ErrDatabaseLocked", wit)
+					}
+				case rep.Mode == "exclusive" || rep.WriteOK:
+					c.Violation("c41/second-writer", "an opener obtained write access while the LOCK is held", wit)
+				case rep.Mode == "readonly":
+					roSessions++
+					if rep.ReadErr != "" || rep.Root != lroot.String() {
+						c.Violation("c41/readonly-cannot-read/"+damage, fmt.Sprintf("read-only opener shows root %s (committed %s) %s", rep.Root, lroot, rep.ReadErr), wit)
+					}
+				case rep.Mode == "error":
+					c.Violation("c41/readonly-open-error/"+damage, "opening read-only failed: "+firstLine(rep.Err), wit)
+				}
+			}
+			after := dirDigest(db)
+			lk.Unlock()
+			if d := digestDiff(before, after); len(d) > 0 {
+				c.Violation("c41/readonly-session-modified-files/"+damage, strings.Join(d, "; "), map[string]any{"damage": damage})
+			}
 		case 2: // race for write access
 			k := 2 + r.Intn(3)
 			reps := make([]*c41Report, k)
@@ -399,5 +474,3 @@ func c41(c *rig.Ctx) {
 	c.Count("c41.damaged_directories", damaged)
 	c.Require(roSessions > 0 && failfast > 0 && exclusiveRaces > 0 && tracedRO > 0, "one of: read-only session, fail-fast open, write race, traced read-only session was never exercised")
 }
-
-var _ = hash.Hash{}
